@@ -284,6 +284,98 @@ Proof.
   destruct s; [contradiction|discriminate].
 Qed.
 
+(* texts given as units: plain characters and backslash escapes *)
+Definition written_text (us : list unit_) : Prop :=
+  text_units us /\ Forall (fun c => c <> TAB) (encode us) /\ edge_ok (encode us) /\ valid_text (decode us) = true.
+
+Lemma encode_no_nl us : Forall okc (decode us) -> Forall (fun c => c <> NL) (encode us).
+Proof.
+  induction us as [|[c|c] r IH]; intros H; [constructor| |]; inversion H as [|? ? [_ Hc] Hr]; subst.
+  - change (encode (P c :: r)) with (c :: encode r). constructor; [exact Hc|apply IH; exact Hr].
+  - change (encode (Esc c :: r)) with (EscapeLossless.BS :: c :: encode r).
+    constructor; [unfold EscapeLossless.BS, NL; discriminate|]. constructor; [exact Hc|apply IH; exact Hr].
+Qed.
+
+Theorem hier_element_converts_units uri prefix kw n uh ut k root_meta att_meta :
+  assoc_str uri meta_templates = Some (root_meta, att_meta) ->
+  In kw hier_keywords ->
+  num_ok n -> Forall (fun c => c <> TAB) n -> clean_num n <> [] -> valid_text n = true ->
+  written_text uh -> written_text ut ->
+  let L := encode ut ++ NL :: 15 :: [NL] in
+  none_starts block_lits L = true -> p_safe L = true -> starts_with SUBH L = false -> no_ctl_start (encode ut) = true ->
+  (1 <= k)%nat ->
+  let tag := hier_name kw in
+  let cand := candidate prefix tag (clean_num n) in
+  convert uri (of_string "hier_element") prefix (kw ++ 32 :: n ++ 32 :: 45 :: 32 :: encode uh ++ NL :: repeat SP k ++ encode ut ++ [NL])
+  = OkR (hier_x tag [(EID, cand)] [(EID, cand ++ DUSCORE ++ P1)] n (decode uh) (decode ut)).
+Proof.
+  intros Hm Hkw Hn Hnt Hcn Hvn (Uh & Hhtab & Hhedge & Hvh) (Ut & Httab & Htedge & Hvt) L HbL HpL HsL Hctl Hk tag cand.
+  set (h := encode uh) in *. set (t := encode ut) in *.
+  assert (Hhok : Forall okc (decode uh)) by apply Uh. assert (Htok : Forall okc (decode ut)) by apply Ut.
+  assert (Hhne : decode uh <> []) by (destruct Uh as (_ & _ & _ & H); destruct uh; [contradiction|discriminate]).
+  assert (Htne : decode ut <> []) by (destruct Ut as (_ & _ & _ & H); destruct ut; [contradiction|discriminate]).
+  assert (Hhne' : h <> []) by (destruct h; [destruct Hhedge|discriminate]).
+  pose proof keywords_plain as KT. rewrite forallb_forall in KT. specialize (KT kw Hkw). apply andb_true_iff in KT as [K1 K2].
+  rewrite forallb_forall in K2.
+  destruct Hn as [Hnok Hn0].
+  assert (Hnnl : Forall (fun c => c <> NL) n) by (eapply Forall_impl; [|exact Hnok]; intros c ((_ & H) & _); exact H).
+  assert (Hhnl : Forall (fun c => c <> NL) h) by (apply encode_no_nl; exact Hhok).
+  assert (Htnl : Forall (fun c => c <> NL) t) by (apply encode_no_nl; exact Htok).
+  set (l1 := kw ++ 32 :: n ++ 32 :: 45 :: 32 :: h).
+  assert (Hl1tab : Forall (fun c => c <> TAB) l1).
+  { subst l1. apply Forall_app. split.
+    - apply Forall_forall. intros c Hc. specialize (K2 c Hc). apply andb_true_iff in K2 as [K _]. apply negb_true_iff in K. apply N.eqb_neq. exact K.
+    - constructor; [unfold TAB; discriminate|]. apply Forall_app. split; [exact Hnt|]. repeat (constructor; [unfold TAB; discriminate|]). exact Hhtab. }
+  assert (Hl1nl : Forall (fun c => c <> NL) l1).
+  { subst l1. apply Forall_app. split.
+    - apply Forall_forall. intros c Hc. specialize (K2 c Hc). apply andb_true_iff in K2 as [_ K]. apply negb_true_iff in K. apply N.eqb_neq. exact K.
+    - constructor; [unfold NL; discriminate|]. apply Forall_app. split; [exact Hnnl|]. repeat (constructor; [unfold NL; discriminate|]). exact Hhnl. }
+  assert (Hl1edge : edge_ok l1).
+  { subst l1. destruct kw as [|k0 kr]; [discriminate|]. cbn [app edge_ok]. split; [apply negb_true_iff in K1; exact K1|].
+    replace (k0 :: kr ++ 32 :: n ++ 32 :: 45 :: 32 :: h) with (((k0 :: kr) ++ 32 :: n ++ [32; 45; 32]) ++ h) by (cbn [app]; rewrite <- !app_assoc; cbn [app]; rewrite <- !app_assoc; reflexivity).
+    rewrite (last_app_ne _ h Hhne'). destruct h as [|h0 hr]; [contradiction|]. cbn [edge_ok] in Hhedge. apply Hhedge. }
+  unfold convert, parse_text.
+  replace (kw ++ 32 :: n ++ 32 :: 45 :: 32 :: h ++ NL :: repeat SP k ++ t ++ [NL]) with (l1 ++ NL :: repeat SP k ++ t ++ [NL])
+    by (subst l1; rewrite <- !app_assoc; cbn [app]; rewrite <- !app_assoc; reflexivity).
+  rewrite (pre_parse_two_lines default_indent_size l1 t k Hl1tab Hl1nl Hl1edge Httab Htnl Htedge Hk).
+  change (resolve_root (of_string "hier_element")) with (of_string "hier_element").
+  change INDENT_C with 14. change DEDENT_C with 15.
+  set (pre := l1 ++ NL :: 14 :: NL :: t ++ NL :: 15 :: [NL]).
+  assert (Epre : pre = hier_text kw n uh ut []).
+  { subst pre l1 h t. unfold hier_text. rewrite <- !app_assoc. cbn [app]. rewrite <- !app_assoc. reflexivity. }
+  unfold parse. replace (default_fuel pre) with (40 + (960 + 16 * length pre))%nat by (unfold default_fuel; lia).
+  set (F := (960 + 16 * length pre)%nat).
+  set (o5' := len_N [] + len_N kw + 1 + len_N n + 3 + len_N (encode uh) + 1 + 2 + len_N (encode ut) + 1).
+  destruct (dedent_last (25 + F) o5') as (td & Ed).
+  destruct (hier_element_yields_hier_node F (2 * S (length pre) + 47) [] kw n uh ut [] [] (o5' + 2) td Hkw (conj Hnok Hn0) Uh Ut)
+    as (tree & hds & lds & Hrun & Hdict & Hd1 & Hc1 & Hd2 & Hc2 & Hroot).
+  - fold h. destruct h as [|h0 hr]; [exact I|]. cbn [edge_ok] in Hhedge. destruct Hhedge as [Hf _]. intros ->. discriminate.
+  - exact HbL.
+  - exact HpL.
+  - exact HsL.
+  - exact Hctl.
+  - exact Ed.
+  - fold o5'. lia.
+  - rewrite <- Epre in Hrun, Hdict. change (len_N []) with 0 in Hrun. rewrite Hrun. cbn [bind].
+    unfold tree_to_dict. replace (2 * S (length pre) + 50)%nat with (3 + (2 * S (length pre) + 47))%nat by lia.
+    cbn [app] in Hdict. rewrite Hdict. cbn [bind].
+    unfold xml_from_dict, meta_of. rewrite Hm. cbn [bind]. unfold hier_dnode.
+    unfold dsize_fuel. replace (4 * S (length pre) + 100)%nat with (S (S (S (4 * S (length pre) + 97))))%nat by lia.
+    rewrite (hier_xml att_meta _ (hier_name kw) n hds lds g0); try assumption.
+    + cbn [bind]. rewrite Hroot.
+      destruct (fuel_hier (hier_name kw) n hds lds) as (fz & Ef). rewrite Ef.
+      rewrite norm_hier; [|destruct n; [contradiction|discriminate]|rewrite Hc1; exact Hhne|rewrite Hc2; exact Htne].
+      rewrite Hc1, Hc2.
+      pose proof tags_ok as TO. rewrite Forall_forall in TO.
+      rewrite (post_process_hier (hier_name kw) prefix n (decode uh) (decode ut) (TO _ (in_map hier_name _ _ Hkw))); try assumption.
+      * reflexivity.
+      * destruct n; [contradiction|discriminate].
+    + destruct n; [contradiction|discriminate].
+    + intros ->. cbn in Hc1. apply Hhne. symmetry. exact Hc1.
+    + rewrite Hc1. exact Hvh.
+    + rewrite Hc2. exact Hvt.
+Qed.
+
 Theorem hier_element_converts uri prefix kw n h t k root_meta att_meta :
   assoc_str uri meta_templates = Some (root_meta, att_meta) ->
   In kw hier_keywords ->
@@ -299,65 +391,58 @@ Theorem hier_element_converts uri prefix kw n h t k root_meta att_meta :
 Proof.
   intros Hm Hkw Hn Hnt Hcn Hvn Hh Ht L HbL HpL HsL Hctl Hk tag cand.
   destruct (plain_units h Hh) as (Uh & Eeh & Edh). destruct (plain_units t Ht) as (Ut & Eet & Edt).
-  destruct Hh as (Hhne & Hhok & _ & _ & Hhtab & Hhedge & Hvh). destruct Ht as (Htne & Htok & _ & _ & Httab & Htedge & Hvt).
-  pose proof keywords_plain as KT. rewrite forallb_forall in KT. specialize (KT kw Hkw). apply andb_true_iff in KT as [K1 K2].
-  rewrite forallb_forall in K2.
-  destruct Hn as [Hnok Hn0].
-  assert (Hnnl : Forall (fun c => c <> NL) n) by (eapply Forall_impl; [|exact Hnok]; intros c ((_ & H) & _); exact H).
-  assert (Hhnl : Forall (fun c => c <> NL) h) by (eapply Forall_impl; [|exact Hhok]; intros c [_ H]; exact H).
-  assert (Htnl : Forall (fun c => c <> NL) t) by (eapply Forall_impl; [|exact Htok]; intros c [_ H]; exact H).
-  set (l1 := kw ++ 32 :: n ++ 32 :: 45 :: 32 :: h).
-  assert (Hl1tab : Forall (fun c => c <> TAB) l1).
-  { subst l1. apply Forall_app. split.
-    - apply Forall_forall. intros c Hc. specialize (K2 c Hc). apply andb_true_iff in K2 as [K _]. apply negb_true_iff in K. apply N.eqb_neq. exact K.
-    - constructor; [unfold TAB; discriminate|]. apply Forall_app. split; [exact Hnt|]. repeat (constructor; [unfold TAB; discriminate|]). exact Hhtab. }
-  assert (Hl1nl : Forall (fun c => c <> NL) l1).
-  { subst l1. apply Forall_app. split.
-    - apply Forall_forall. intros c Hc. specialize (K2 c Hc). apply andb_true_iff in K2 as [_ K]. apply negb_true_iff in K. apply N.eqb_neq. exact K.
-    - constructor; [unfold NL; discriminate|]. apply Forall_app. split; [exact Hnnl|]. repeat (constructor; [unfold NL; discriminate|]). exact Hhnl. }
-  assert (Hl1edge : edge_ok l1).
-  { subst l1. destruct kw as [|k0 kr]; [discriminate|]. cbn [app edge_ok]. split; [apply negb_true_iff in K1; exact K1|].
-    replace (k0 :: kr ++ 32 :: n ++ 32 :: 45 :: 32 :: h) with (((k0 :: kr) ++ 32 :: n ++ [32; 45; 32]) ++ h) by (cbn [app]; rewrite <- !app_assoc; cbn [app]; rewrite <- !app_assoc; reflexivity).
-    rewrite (last_app_ne _ h Hhne). destruct h as [|h0 hr]; [contradiction|]. cbn [edge_ok] in Hhedge. apply Hhedge. }
-  unfold convert, parse_text.
-  replace (kw ++ 32 :: n ++ 32 :: 45 :: 32 :: h ++ NL :: repeat SP k ++ t ++ [NL]) with (l1 ++ NL :: repeat SP k ++ t ++ [NL])
-    by (subst l1; rewrite <- !app_assoc; cbn [app]; rewrite <- !app_assoc; reflexivity).
-  rewrite (pre_parse_two_lines default_indent_size l1 t k Hl1tab Hl1nl Hl1edge Httab Htnl Htedge Hk).
-  change (resolve_root (of_string "hier_element")) with (of_string "hier_element").
-  change INDENT_C with 14. change DEDENT_C with 15.
-  set (pre := l1 ++ NL :: 14 :: NL :: t ++ NL :: 15 :: [NL]).
-  assert (Epre : pre = hier_text kw n (map P h) (map P t) []).
-  { subst pre l1. unfold hier_text. rewrite Eeh, Eet. rewrite <- !app_assoc. cbn [app]. rewrite <- !app_assoc. reflexivity. }
-  unfold parse. replace (default_fuel pre) with (40 + (960 + 16 * length pre))%nat by (unfold default_fuel; lia).
-  set (F := (960 + 16 * length pre)%nat).
-  set (o5' := len_N [] + len_N kw + 1 + len_N n + 3 + len_N (encode (map P h)) + 1 + 2 + len_N (encode (map P t)) + 1).
-  destruct (dedent_last (25 + F) o5') as (td & Ed).
-  destruct (hier_element_yields_hier_node F (2 * S (length pre) + 47) [] kw n (map P h) (map P t) [] [] (o5' + 2) td Hkw (conj Hnok Hn0) Uh Ut)
-    as (tree & hds & lds & Hrun & Hdict & Hd1 & Hc1 & Hd2 & Hc2 & Hroot).
-  - rewrite Eeh. destruct h as [|h0 hr]; [exact I|]. cbn [edge_ok] in Hhedge. destruct Hhedge as [Hf _]. intros ->. discriminate.
-  - rewrite Eet. exact HbL.
-  - rewrite Eet. exact HpL.
-  - rewrite Eet. exact HsL.
-  - rewrite Eet. exact Hctl.
-  - exact Ed.
-  - fold o5'. lia.
-  - rewrite <- Epre in Hrun, Hdict. change (len_N []) with 0 in Hrun. rewrite Hrun. cbn [bind].
-    unfold tree_to_dict. replace (2 * S (length pre) + 50)%nat with (3 + (2 * S (length pre) + 47))%nat by lia.
-    cbn [app] in Hdict. rewrite Hdict. cbn [bind].
-    unfold xml_from_dict, meta_of. rewrite Hm. cbn [bind]. unfold hier_dnode.
-    unfold dsize_fuel. replace (4 * S (length pre) + 100)%nat with (S (S (S (4 * S (length pre) + 97))))%nat by lia.
-    rewrite Edh in Hc1. rewrite Edt in Hc2.
-    rewrite (hier_xml att_meta _ (hier_name kw) n hds lds g0); try assumption.
-    + cbn [bind]. rewrite Hroot.
-      destruct (fuel_hier (hier_name kw) n hds lds) as (fz & Ef). rewrite Ef.
-      rewrite norm_hier; [|destruct n; [contradiction|discriminate]|rewrite Hc1; exact Hhne|rewrite Hc2; exact Htne].
-      rewrite Hc1, Hc2.
-      pose proof tags_ok as TO. rewrite Forall_forall in TO.
-      rewrite (post_process_hier (hier_name kw) prefix n h t (TO _ (in_map hier_name _ _ Hkw))); try assumption.
-      * reflexivity.
-      * destruct n; [contradiction|discriminate].
-    + destruct n; [contradiction|discriminate].
-    + intros ->. cbn in Hc1. apply Hhne. symmetry. exact Hc1.
-    + rewrite Hc1. exact Hvh.
-    + rewrite Hc2. exact Hvt.
+  destruct Hh as (_ & _ & _ & _ & Hhtab & Hhedge & Hvh). destruct Ht as (_ & _ & _ & _ & Httab & Htedge & Hvt).
+  pose proof (hier_element_converts_units uri prefix kw n (map P h) (map P t) k root_meta att_meta Hm Hkw Hn Hnt Hcn Hvn) as H.
+  rewrite Eeh, Eet, Edh, Edt in H. apply H; try assumption.
+  - split; [exact Uh|]. rewrite Eeh, Edh. repeat split; assumption.
+  - split; [exact Ut|]. rewrite Eet, Edt. repeat split; assumption.
+Qed.
+
+(* the fully escaped heading and line (C13): every character behind a backslash *)
+Lemma esc_units s : encode (map Esc s) = esc s /\ decode (map Esc s) = s.
+Proof. induction s as [|c r [IH1 IH2]]; [split; reflexivity|]. split; cbn [map]; [change (encode (Esc c :: map Esc r)) with (EscapeLossless.BS :: c :: encode (map Esc r)); rewrite IH1; reflexivity|change (decode (Esc c :: map Esc r)) with (c :: decode (map Esc r)); rewrite IH2; reflexivity]. Qed.
+
+Lemma block_lits_not_bs more : none_starts block_lits (PegEscape.BS :: more) = true.
+Proof. vm_compute. reflexivity. Qed.
+
+Definition escapable (s : str) : Prop :=
+  s <> [] /\ Forall okc s /\ Forall (fun c => c <> TAB) s /\ py_isspace (last s 0) = false /\ valid_text s = true.
+
+Lemma last_esc s : s <> [] -> last (esc s) 0 = last s 0.
+Proof.
+  induction s as [|c r IH]; intros Hne; [contradiction|]. destruct r as [|d r']; [reflexivity|].
+  change (esc (c :: d :: r')) with (PegEscape.BS :: c :: esc (d :: r')).
+  change (last (PegEscape.BS :: c :: esc (d :: r')) 0) with (last (esc (d :: r')) 0). rewrite IH by discriminate. reflexivity.
+Qed.
+
+Lemma escaped_written s : escapable s -> written_text (map Esc s) /\ encode (map Esc s) = esc s /\ decode (map Esc s) = s.
+Proof.
+  intros (Hne & Hok & Htab & Hlast & Hv). destruct (esc_units s) as [Ee Ed]. split; [|split; assumption].
+  split; [|rewrite Ee, Ed; split; [|split; [|exact Hv]]].
+  - split; [apply Forall_forall; intros u Hu; apply in_map_iff in Hu as (c & <- & _); reflexivity|].
+    split; [rewrite Ed; exact Hok|]. split; [|destruct s; [contradiction|discriminate]].
+    clear. induction s as [|c r IH]; [reflexivity|]. cbn [map]. destruct r; [reflexivity|exact IH].
+  - clear -Htab. induction Htab as [|c r Hc Hr IH]; [constructor|]. cbn [esc].
+    constructor; [unfold PegEscape.BS, TAB; discriminate|]. constructor; assumption.
+  - destruct s as [|c r]; [contradiction|]. change (esc (c :: r)) with (PegEscape.BS :: c :: esc r). cbn [edge_ok]. split; [reflexivity|].
+    change (PegEscape.BS :: c :: esc r) with (esc (c :: r)). rewrite last_esc by discriminate. exact Hlast.
+Qed.
+
+(* C13 through the whole pipeline: in a hierarchical element, a heading and a line written with every character escaped come out as
+   exactly those characters - whatever they spell *)
+Theorem escaped_hier_element_converts uri prefix kw n h t k root_meta att_meta :
+  assoc_str uri meta_templates = Some (root_meta, att_meta) ->
+  In kw hier_keywords ->
+  num_ok n -> Forall (fun c => c <> TAB) n -> clean_num n <> [] -> valid_text n = true ->
+  escapable h -> escapable t -> (1 <= k)%nat ->
+  let tag := hier_name kw in
+  let cand := candidate prefix tag (clean_num n) in
+  convert uri (of_string "hier_element") prefix (kw ++ 32 :: n ++ 32 :: 45 :: 32 :: esc h ++ NL :: repeat SP k ++ esc t ++ [NL])
+  = OkR (hier_x tag [(EID, cand)] [(EID, cand ++ DUSCORE ++ P1)] n h t).
+Proof.
+  intros Hm Hkw Hn Hnt Hcn Hvn Hh Ht Hk tag cand.
+  destruct (escaped_written h Hh) as (Wh & Eeh & Edh). destruct (escaped_written t Ht) as (Wt & Eet & Edt).
+  pose proof (hier_element_converts_units uri prefix kw n (map Esc h) (map Esc t) k root_meta att_meta Hm Hkw Hn Hnt Hcn Hvn Wh Wt) as H.
+  rewrite Eeh, Eet, Edh, Edt in H. destruct Ht as (Htne & _). destruct t as [|t0 tr]; [contradiction|].
+  change (esc (t0 :: tr)) with (PegEscape.BS :: t0 :: esc tr) in *. apply H; try assumption; try reflexivity.
 Qed.
